@@ -919,12 +919,23 @@ func c13RandomScenario(w *core.W, kind string, j int, seed uint64) {
 }
 
 // scenario: the server is started again while a Shutdown is still waiting for a held handler.
-func c13RestartDuringDrain(w *core.W, kind string, seed uint64) { c13RestartWhile(w, kind, false, seed) }
+func c13RestartDuringDrain(w *core.W, kind string, seed uint64) {
+	c13RestartWhile(w, kind, false, seed)
+}
+
+// the same with the second start made through ListenAndServe on a real loopback address
+func c13RestartDuringDrainListen(w *core.W, kind string, seed uint64) {
+	c13RestartVia(w, kind, false, true, seed)
+}
 
 // c13RestartWhile: a second start while a Shutdown of the same Server is still waiting - for a held
 // handler (beforeLoop=false), or for a serve goroutine that has marked the server started but has not
 // yet reached its loop (beforeLoop=true: held at the start.unlocked hook, before NotifyStartedFunc).
 func c13RestartWhile(w *core.W, kind string, beforeLoop bool, seed uint64) {
+	c13RestartVia(w, kind, beforeLoop, false, seed)
+}
+
+func c13RestartVia(w *core.W, kind string, beforeLoop, viaListen bool, seed uint64) {
 	name := "restart-during-drain"
 	if beforeLoop {
 		name = "restart-before-serve-loop"
@@ -968,17 +979,27 @@ func c13RestartWhile(w *core.W, kind string, beforeLoop bool, seed uint64) {
 	started2 := make(chan struct{})
 	var once sync.Once
 	e.srv.NotifyStartedFunc = func() { once.Do(func() { close(started2) }) }
-	switch kind {
-	case "tcp-sim":
+	switch {
+	case viaListen:
+		e.srv.Addr = "127.0.0.1:0"
+		e.srv.Net = map[string]string{"tcp-sim": "tcp", "pc-sim": "udp"}[kind]
+		w.Count("restarts_via_ListenAndServe", 1)
+	case kind == "tcp-sim":
 		e.ln = netsim.NewListener()
 		e.srv.Listener = e.ln
-	case "pc-sim":
+	case kind == "pc-sim":
 		e.pc = netsim.NewPacketConn()
 		e.srv.PacketConn = e.pc
 	}
 	serve2 := make(chan error, 1)
 	e.ctl.Note("start.call", "second")
-	go func() { serve2 <- e.srv.ActivateAndServe() }()
+	go func() {
+		if viaListen {
+			serve2 <- e.srv.ListenAndServe()
+		} else {
+			serve2 <- e.srv.ActivateAndServe()
+		}
+	}()
 	second := "started"
 	select {
 	case <-started2:
@@ -1012,7 +1033,21 @@ func c13RestartWhile(w *core.W, kind string, beforeLoop bool, seed uint64) {
 		e.viol("restart-during-drain/first-serve-does-not-return", "the first serve call did not return")
 	}
 	// if the second start succeeded the server must work and shut down cleanly
-	if second == "started" {
+	if second == "started" && viaListen {
+		// (the restarted server listens on a real socket of its own choosing: only its shutdown is looked at)
+		done := make(chan error, 1)
+		go func() { done <- e.srv.Shutdown() }()
+		select {
+		case <-done:
+		case <-time.After(c13Watch):
+			e.viol("restart-during-drain/second-shutdown-does-not-return", "Shutdown of the restarted server does not return")
+		}
+		select {
+		case <-serve2:
+		case <-time.After(c13Watch):
+			e.viol("restart-during-drain/second-serve-does-not-return", "the second serve call did not return")
+		}
+	} else if second == "started" {
 		r2 := e.send(61)
 		select {
 		case okr := <-r2.reply:
@@ -1467,6 +1502,7 @@ func c13Cases() []c13Case {
 		if kind == "tcp-sim" || kind == "pc-sim" {
 			cs = append(cs, c13Case{kind + " restart during drain", func(w *core.W, s uint64) { c13RestartDuringDrain(w, kind, s) }})
 			cs = append(cs, c13Case{kind + " restart before the serve loop", func(w *core.W, s uint64) { c13RestartWhile(w, kind, true, s) }})
+			cs = append(cs, c13Case{kind + " restart during drain through ListenAndServe", func(w *core.W, s uint64) { c13RestartDuringDrainListen(w, kind, s) }})
 		}
 		if kind == "tcp-sim" || kind == "pc-sim" {
 			cs = append(cs, c13Case{kind + " pause", func(w *core.W, s uint64) { c13PauseScenario(w, kind, s) }})
